@@ -346,6 +346,42 @@ pub fn run(ctx: &'static Ctx) {
             }
             na.fetch_add(local, std::sync::atomic::Ordering::Relaxed);
         });
+        // the same buffer handed over twice with different contents (what a caller who patches a structure in place and
+        // updates the sum does): append(buf); change bytes of buf; delete(buf) — and append / append, delete / delete
+        {
+            let mut local = 0u64;
+            for len in [1usize, 8, 31, 32, 33, 64, 100, 256, 1000, 4096, 70_000] {
+                for first in [0u8, 0x11, 0xff] {
+                    let mut bufm: Vec<u8> = (0..len).map(|i| first.wrapping_add((i as u8).wrapping_mul(3))).collect();
+                    let s1 = bufm.iter().fold(0u8, |a, b| a.wrapping_add(*b));
+                    let mut c = at(0x40);
+                    c.append(&bufm);
+                    for (i, b) in bufm.iter_mut().enumerate() {
+                        if i % 3 == 0 {
+                            *b = b.wrapping_add(0x5b);
+                        }
+                    }
+                    let s2 = bufm.iter().fold(0u8, |a, b| a.wrapping_add(*b));
+                    c.delete(&bufm);
+                    local += 1;
+                    let want = 0x40u8.wrapping_add(s1).wrapping_sub(s2);
+                    if c.raw_value() != want {
+                        ctx.violation_sized("acc:same-buffer:append-mutate-delete", len as u64, || format!("append of a {}-byte buffer, bytes changed in place, delete of the same buffer: raw {} expected {}", len, c.raw_value(), want), || json!({"op": "append/mutate/delete", "slice_len": len, "first": first}));
+                    }
+                    // append again (same address, new contents) and delete twice
+                    let mut d = at(0);
+                    d.append(&bufm);
+                    bufm[len / 2] = bufm[len / 2].wrapping_add(1);
+                    d.append(&bufm);
+                    local += 1;
+                    let want2 = s2.wrapping_add(s2).wrapping_add(1);
+                    if d.raw_value() != want2 {
+                        ctx.violation_sized("acc:same-buffer:append-mutate-append", len as u64, || format!("two appends of one {}-byte buffer whose middle byte changed in between: raw {} expected {}", len, d.raw_value(), want2), || json!({"op": "append/mutate/append", "slice_len": len, "first": first}));
+                    }
+                }
+            }
+            na.fetch_add(local, std::sync::atomic::Ordering::Relaxed);
+        }
         ctx.tr(na.load(std::sync::atomic::Ordering::Relaxed));
         ctx.engine("E3.aligned-slices", json!({"lengths": "0..=1100, 4090..4097, 8191..8193, 65535..65537", "start_offsets": "0..=16 within one buffer", "start_states": 3, "runs": "every run length 0..=300 of 00/ff/80 with 4 lead and 4 trail lengths", "calls": na.load(std::sync::atomic::Ordering::Relaxed)}));
     }
